@@ -2,7 +2,7 @@
 element's fingerprint is compared with that of a fresh twin holding the remaining children."""
 from mc import structcheck, obscheck  # noqa: F401
 
-PROFILES = [('addrem-noS', 2000, 30000)]
+PROFILES = [('addrem-noS', 6000, 40000)]
 
 
 def run(tier):
